@@ -1,4 +1,5 @@
 import Gofasta.Model.Regions
+import Gofasta.Lemmas.GffRowOrder
 /-
 C14 — GenBank and GFF3 descriptions of the same genes give the same mutations.
 What is proved: the ordered position list (hence the codon structure and every position-derived
@@ -192,29 +193,46 @@ the positions 3,4,5,6,10,…,14 (the original code rejected the GFF form) -/
 example : fwdPositionsGff (fwdRows "g" 0 (3, 6) [((10, 14), 2)]) = [3, 4, 5, 6, 10, 11, 12, 13, 14] ∧
     (locPositions .join [(3, 6), (10, 14)]).drop 0 = [3, 4, 5, 6, 10, 11, 12, 13, 14] := by decide
 
-/-- the positions studied above are the ones the model's GFF reader gives a feature -/
+/-- the positions studied above are the ones the model's GFF reader gives a feature, once its rows are put in
+ascending order (since fix a19382f the reader orders the rows by genomic start first) -/
 theorem regionFromGFF_positions (rows : List GffRow) (ref : List Nat) (reg : Region) (h : regionFromGFF rows ref = some reg) :
-    (reg.strand = 1 ∧ reg.positions = fwdPositionsGff rows) ∨ (reg.strand = -1 ∧ reg.positions = revPositionsGff rows) := by
-  unfold regionFromGFF at h
-  split at h
-  · cases h
-  · rename_i r0 rest
+    (reg.strand = 1 ∧ reg.positions = fwdPositionsGff (sortRows rows)) ∨
+      (reg.strand = -1 ∧ reg.positions = revPositionsGff (sortRows rows)) := by
+  rw [Gofasta.Lemmas.GffRowOrder.regionFromGFF_eq] at h
+  cases hh : rows.head? with
+  | none => rw [hh] at h; cases h
+  | some f0 =>
+    rw [hh] at h
     simp only [] at h
+    generalize sortRows rows = srt at h
+    unfold Gofasta.Lemmas.GffRowOrder.regionOfSorted at h
     split at h
-    · split at h
-      · cases h
-      · split at h
-        · rename_i t ht
-          cases h
-          left; exact ⟨rfl, rfl⟩
-        · cases h
-    · split at h
-      · cases h
-      · split at h
-        · rename_i t ht
-          cases h
-          right; exact ⟨rfl, rfl⟩
-        · cases h
     · cases h
+    · rename_i r0 rest
+      simp only [] at h
+      split at h
+      · split at h
+        · cases h
+        · split at h
+          · rename_i t ht
+            cases h
+            left; exact ⟨rfl, rfl⟩
+          · cases h
+      · split at h
+        · cases h
+        · split at h
+          · rename_i t ht
+            cases h
+            right; exact ⟨rfl, rfl⟩
+          · cases h
+      · cases h
+
+/-- for rows listed by non-decreasing start (the model's own rows, `fwdRows` and `revRows` of ascending segments) the
+sort does nothing -/
+theorem regionFromGFF_positions_of_sorted (rows : List GffRow) (ref : List Nat) (reg : Region)
+    (hs : Gofasta.Lemmas.GffRowOrder.Ascending rows) (h : regionFromGFF rows ref = some reg) :
+    (reg.strand = 1 ∧ reg.positions = fwdPositionsGff rows) ∨ (reg.strand = -1 ∧ reg.positions = revPositionsGff rows) := by
+  have := regionFromGFF_positions rows ref reg h
+  rwa [Gofasta.Lemmas.GffRowOrder.sortRows_of_sorted rows hs] at this
 
 end Gofasta.Props.C14
